@@ -41,6 +41,12 @@ CHECKS = {
         text="Interval algebra: each leaf operation is proved by Kani for every valid pre-state of <= 2 intervals and every argument (sorted/disjoint/capacity invariant re-established, no point lost, exact below capacity, capacity crossing included); the composite operations are decided from their MIR for operands of up to 2 (thorough: 3) intervals. DataType level: for ~500 type pairs on a boundary grid the solver searches every value of the operands for one outside the real is_subset_of / super_union / super_intersection result (cross-variant membership through the MIR-translated injection kernels).",
         note="Trusted: Kani/CBMC; MIR translation, combinator and contract stubs; grid of type pairs is enumeration (stated). Known findings: Struct::super_union with different field sets; literal `contains` for cross-variant pairs.",
         design="3 C11, 2.2"),
+    "C10": dict(
+        level="model_checking", engine="M kernels + expression evaluator + driver",
+        technique="SMT (bit-vectors + IEEE doubles): for generated (struct type, predicate) pairs the real DataType::filter result is compared against every row of the type on which the predicate - evaluated with the MIR-translated kernels - is true; SQLite + real contains replay",
+        text="For each of ~350 (quick) / 5000 (thorough) generated pairs of a struct type and a predicate, the real filter narrowing is run and the solver searches all rows of the type (2^64-2^192, NULLs included) for one that satisfies the predicate and is missing from the narrowed type. Types and predicates are generated (bounded, seeded); rows are symbolic.",
+        note="Trusted: lib/exprsem.py dispatch model over MIR-translated kernels (SQL NULL semantics); every counterexample is re-evaluated by SQLite on the library's own SQL rendering and by the real contains.",
+        design="3 C10"),
 }
 
 NOT_APPLICABLE = {
@@ -57,7 +63,6 @@ NOT_YET = {
     "C07": "not built yet",
     "C08": "not built yet (stretch goal; two SQL front ends)",
     "C09": "not built yet",
-    "C10": "not built yet",
     "C14": "not built yet",
 }
 
